@@ -90,12 +90,14 @@ func (c *Component) Resume() error {
 	// Check server response for authentication
 	val, err := stanza.NextPacket(c.transport.GetDecoder())
 	if err != nil {
+		c.closeRefused()
 		c.updateState(StatePermanentError)
 		return NewConnError(err, true)
 	}
 
 	switch v := val.(type) {
 	case stanza.StreamError:
+		c.closeRefused()
 		c.streamError("conflict", "no auth loop")
 		return NewConnError(errors.New("handshake failed "+v.Error.Local), true)
 	case stanza.Handshake:
@@ -104,9 +106,33 @@ func (c *Component) Resume() error {
 		go c.recv(c.transport)
 		return err // Should be empty at this point
 	default:
+		c.closeRefused()
 		c.updateState(StatePermanentError)
 		return NewConnError(errors.New("expecting handshake result, got "+v.Name()), true)
 	}
+}
+
+// closeRefused ends the connection of an attempt whose handshake was not accepted: the attempt is
+// reported as failed, so its stream is closed instead of being left open - usable by Send, and
+// leaked by the next attempt, which installs a new transport. No receiver runs on it: so that
+// Close does not sit out ConnectTimeout, what the server still sends is read up to its stream
+// close here (and dropped: nothing of a refused stream is routed).
+func (c *Component) closeRefused() {
+	transport := c.transport
+	decoder := transport.GetDecoder()
+	go func() {
+		for {
+			val, err := stanza.NextPacket(decoder)
+			if err != nil {
+				return
+			}
+			if _, ok := val.(stanza.StreamClosePacket); ok {
+				transport.ReceivedStreamClose()
+				return
+			}
+		}
+	}()
+	transport.Close()
 }
 
 func (c *Component) Disconnect() error {
